@@ -121,7 +121,8 @@ def tableHandler : Handler := fun payload impl =>
     -- specification: linearizability of what the implementation answered
     let obs := (implRaw.splitOn " / ").map fun c => (words c).map parseObs
     let verdict :=
-      if obs.length ≠ tc.clients.length ∨ (obs.zip tc.clients).any (fun (o, a) => o.length ≠ a.length) then
+      if impl.startsWith "CRASH" ∨ impl.startsWith "HANG" then "FAIL " ++ (impl.take 300).toString
+      else if obs.length ≠ tc.clients.length ∨ (obs.zip tc.clients).any (fun (o, a) => o.length ≠ a.length) then
         "FAIL output does not have one answer per operation"
       else match SharedLin.check ((tc.clients.zip obs).map fun (a, o) => a.zip o) with
         | none => "ok"
@@ -146,7 +147,7 @@ def raceHandler : Handler := fun _payload impl =>
     match firstDiff (conc.splitOn " ## ") (s.splitOn " ## ") with
     | none => (model, "ok")
     | some k => (model, s!"FAIL interpreter #{k} gives different answers when other interpreters run concurrently")
-  | _ => ("BAD-OUTPUT", "FAIL " ++ (impl.take 200).toString)
+  | _ => ("BAD-OUTPUT", "FAIL " ++ (impl.take 300).toString)
 
 /-! ## c14.isolation — a state change in interpreter A must not be observable in interpreter B -/
 
